@@ -130,7 +130,9 @@ func extendMacroEnv(macro *object.Macro, args []object.Quote) *State {
 	extended := object.NewEnclosedEnvironment(macro.Env)
 
 	for paramIdx, param := range macro.Parameters {
-		extended.Set(param.Value().Literal(), args[paramIdx])
+		// parameters are new bindings of the macro's own scope (like function parameters): never a reference to a
+		// macro of the same name in the store, never refused because an extension has that name.
+		extended.SetNoChecks(param.Value().Literal(), args[paramIdx], true)
 	}
 
 	// A complete (blank) state: the macro body may print, call functions, etc. while it is evaluated.
